@@ -48,6 +48,8 @@ def gen_singleop(seed, n_per_op, only=None):
                 opset = 18
             g = GraphBuilder(rng, opset=opset, mode="single")
             g.symbolic_inputs = rng.chance(1, 3)
+            # (a product over thousands of elements overflows f32 where the f64 reference does not)
+            g.big = rng.chance(1, 7) and name != "ReduceProd"
             try:
                 out = OPS[name]["make"](g)
             except Invalid:
@@ -105,6 +107,39 @@ def gen_dag(seed, n, allow_random=False):
     return recs
 
 
+def gen_fanout(seed, n):
+    """Graphs in which one value has hundreds of consumers (reference counts of
+    values saturate at 255), mixing in-place capable and other consumers."""
+    import numpy as np
+    recs = []
+    for k in range(n):
+        rng = Rng(seed * 15485863 + k)
+        g = GraphBuilder(rng, opset=17, mode="dag", reuse_prob=(0, 1))
+        x = g.add_input("f32", rng.array("f32", (3,)), [3], name="x")
+        y = g.node("Relu", [x], lambda v: np.maximum(v, 0))
+        fan = rng.choose([200, 254, 255, 256, 257, 300, 520])
+        acc = None
+        for i in range(fan):
+            kind = rng.below(3)
+            if kind == 0:
+                c = g.node("Relu", [y], lambda v: np.maximum(v, 0))       # in-place capable
+            elif kind == 1:
+                c = g.node("Neg", [y], lambda v: -v)
+            else:
+                c = g.node("Add", [y, y], lambda a, b: a + b)
+            acc = c if acc is None else g.node("Add", [acc, c], lambda a, b: a + b)
+        outs = [acc.name]
+        if rng.bool():
+            outs.append(y.name)      # the fanned-out value is also requested
+        g.outputs = outs
+        feeds = [{"x": rng.array("f32", (3,))} for _ in range(2)]
+        feeds[0] = {"x": g.vals["x"].arr}
+        rec = emit.record(g, f"fan-{seed}-{k}", "fanout", {"fan_out": fan}, outs, feeds, tol="model")
+        if rec is not None:
+            recs.append(rec)
+    return recs
+
+
 def main():
     ap = argparse.ArgumentParser()
     ap.add_argument("--family", required=True)
@@ -122,6 +157,7 @@ def main():
             recs = gen_singleop(a.seed, a.n or (200 if thorough else 30), a.ops.split(",") if a.ops else None)
         elif fam == "dag":
             recs = gen_dag(a.seed, a.n or (20000 if thorough else 600))
+            recs += gen_fanout(a.seed, 24 if thorough else 6)
         elif fam == "dagrand":
             recs = gen_dag(a.seed + 17, a.n or (4000 if thorough else 200), allow_random=True)
         elif fam == "patterns":
